@@ -111,7 +111,13 @@ class Ctx:
         shutil.rmtree(self.scratch, ignore_errors=True)
 
     # ------------------------------------------------------------------ Go
-    def go_build(self, race=False, pkgs="./cmd/..."):
+    def go_build(self, pkgs="./cmd/...", race=False):
+        """pkgs: one package pattern or a list (e.g. ["./cmd/substore"]); returns the bin dir"""
+        if isinstance(pkgs, (list, tuple)):
+            out = None
+            for p in pkgs:
+                out = go_build(race=race, pkgs=p)
+            return out
         return go_build(race=race, pkgs=pkgs)
 
     # ------------------------------------------------------------------ TLC
